@@ -2628,4 +2628,119 @@ theorem Reach.ninv {s : State} (h : Reach s) : NInv s := by
   | init => exact NInv.init
   | step e hr hs ih => exact ih.step hr.inv.1 hs
 
+/-! ## library shutdown -/
+
+theorem shutdown_ok {s s' : State} {a : Nat} (h : shutdown s a = .ok s') :
+    canAct s a ∧ (s.key 0).wrapperFreed = false ∧
+    ∃ s3 : State, s3.nkey = (shutdownResolve s).1.nkey ∧ s3.key = (shutdownResolve s).1.key ∧ s3.nN = (shutdownResolve s).1.nN ∧
+      s3.keyDelLog = s.keyDelLog ∧ s3.blockFreeLog = s.blockFreeLog ∧
+      (s3.freeLog = s.freeLog ∨ ∃ v, (shutdownResolve s).1.tls a (shutdownResolve s).2 = v ∧ v ≠ 0 ∧ s3.freeLog = s.freeLog ++ [v - 1]) ∧
+      s' = { s3 with
+        nkey := upd s3.nkey (shutdownResolve s).2 (relN (s3.nkey (shutdownResolve s).2))
+        keyDelLog := s3.keyDelLog ++ (if localFreeDeletesKey then [(shutdownResolve s).2] else [])
+        blockFreeLog := s3.blockFreeLog ++ (if localFreeFreesBlock then [(shutdownResolve s).2] else [])
+        key := upd s3.key 0 { s3.key 0 with wrapperFreed := true } } := by
+  unfold shutdown at h
+  split at h
+  · cases h
+  · rename_i hc
+    split at h
+    · cases h
+    · rename_i hw
+      simp only at h
+      have hlogs : (shutdownResolve s).1.keyDelLog = s.keyDelLog ∧ (shutdownResolve s).1.blockFreeLog = s.blockFreeLog ∧
+          (shutdownResolve s).1.freeLog = s.freeLog := by
+        unfold shutdownResolve; split <;> exact ⟨rfl, rfl, rfl⟩
+      split at h
+      · cases h
+      · rename_i s3 h3
+        injection h with h
+        refine ⟨by simpa using hc, by simpa using hw, s3, ?_⟩
+        split at h3
+        · rename_i hv
+          split at h3
+          · rename_i s2 hu
+            injection h3 with h3; subst h3
+            obtain ⟨e1, e2, e3, _, _, _⟩ := unrefCore_frame hu
+            have e7 : s2.keyDelLog = (shutdownResolve s).1.keyDelLog ∧ s2.blockFreeLog = (shutdownResolve s).1.blockFreeLog := by
+              obtain ⟨_, ⟨_, rfl⟩ | ⟨_, rfl⟩⟩ := unrefCore_ok hu <;> exact ⟨rfl, rfl⟩
+            have e8 := unrefCore_free hu
+            refine ⟨e1, e2, e3, e7.1.trans hlogs.1, e7.2.trans hlogs.2.1, ?_, h.symm⟩
+            simp only
+            rw [e8, hlogs.2.2]
+            split
+            · exact .inr ⟨_, rfl, hv, rfl⟩
+            · exact .inl rfl
+          · cases h3
+        · injection h3 with h3; subst h3
+          exact ⟨rfl, rfl, rfl, hlogs.1, hlogs.2.1, .inl hlogs.2.2, h.symm⟩
+
+/-- `init_shutdown_neutral_threads`, core: once nobody is inside a TLS call, `p_uthread_shutdown` leaves no native
+    key and no native-key block of the library key behind — whether or not the key had ever been used — and none at
+    all if every user key has been released with `p_uthread_local_free` -/
+theorem shutdown_neutral {s s' : State} {a : Nat} (hk : KInv s) (hs : shutdown s a = .ok s')
+    (hq : ∀ t, (s.thr t).pend = none) :
+    (s'.key 0).wrapperFreed = true ∧
+    (∀ n, n < s'.nN → (s'.nkey n).owner = 0 → (s'.nkey n).live = false ∧ (s'.nkey n).blockFreed = true) ∧
+    ((∀ k, 0 < k → k < s.nK → (s.key k).wrapperFreed = true) →
+      ∀ n, n < s'.nN → (s'.nkey n).live = false ∧ (s'.nkey n).blockFreed = true) := by
+  obtain ⟨_, hwf, s3, e1, e2, e3, _, _, _, rfl⟩ := shutdown_ok hs
+  -- every native key of the machine state other than the library key's own: gone, or owned by a key still in use
+  have old : ∀ m, m < s.nN → (s.key 0).published ≠ some m →
+      ((s.nkey m).owner = 0 ∨ (s.key (s.nkey m).owner).wrapperFreed = true) → (s.nkey m).live = false ∧ (s.nkey m).blockFreed = true := by
+    intro m hm hne hown
+    rcases hk.kC m hm with h1 | h1 | ⟨t, h1⟩
+    · rcases hown with h0 | hfr
+      · rw [h0] at h1; exact absurd h1 hne
+      · exact hk.kF _ m hfr h1
+    · have := hk.kL _ m h1; exact ⟨this.2.2.1, this.2.2.2.1⟩
+    · rw [hq t] at h1; cases h1
+  have main : ∀ m, m < s3.nN → ((s.nkey m).owner = 0 ∨ m ≥ s.nN ∨ (s.key (s.nkey m).owner).wrapperFreed = true) →
+      ((upd s3.nkey (shutdownResolve s).2 (relN (s3.nkey (shutdownResolve s).2)) m).live = false ∧
+       (upd s3.nkey (shutdownResolve s).2 (relN (s3.nkey (shutdownResolve s).2)) m).blockFreed = true) := by
+    intro m hm hown
+    by_cases e : m = (shutdownResolve s).2
+    · subst e; simp [relN, localFreeDeletesKey, localFreeFreesBlock]
+    · rw [upd_ne _ _ e, e1]
+      rw [e3] at hm
+      unfold shutdownResolve at e hm ⊢
+      cases hp : (s.key 0).published with
+      | some n0 =>
+        simp only [hp] at e hm ⊢
+        rcases hown with h0 | h0 | h0
+        · exact old m hm (by rw [hp]; intro x; injection x with x; exact e x.symm) (.inl h0)
+        · omega
+        · exact old m hm (by rw [hp]; intro x; injection x with x; exact e x.symm) (.inr h0)
+      | none =>
+        simp only [hp] at e hm ⊢
+        rw [upd_ne _ _ e]
+        have hm' : m < s.nN := by omega
+        rcases hown with h0 | h0 | h0
+        · exact old m hm' (by rw [hp]; simp) (.inl h0)
+        · omega
+        · exact old m hm' (by rw [hp]; simp) (.inr h0)
+  -- the owner recorded for a native key that existed before
+  have own_eq : ∀ m, m < s.nN → (upd s3.nkey (shutdownResolve s).2 (relN (s3.nkey (shutdownResolve s).2)) m).owner = (s.nkey m).owner := by
+    intro m hm
+    have base : (s3.nkey m).owner = (s.nkey m).owner := by
+      rw [e1]; unfold shutdownResolve; split
+      · rfl
+      · simp only; rw [upd_ne _ _ (by omega)]
+    by_cases e : m = (shutdownResolve s).2
+    · subst e; simp [relN, base]
+    · rw [upd_ne _ _ e]; exact base
+  refine ⟨by simp, ?_, ?_⟩
+  · intro m hm ho
+    simp only at hm ho ⊢
+    by_cases hlt : m < s.nN
+    · rw [own_eq m hlt] at ho; exact main m hm (.inl ho)
+    · exact main m hm (.inr (.inl (by omega)))
+  · intro hall m hm
+    simp only at hm ⊢
+    by_cases hlt : m < s.nN
+    · by_cases h0 : (s.nkey m).owner = 0
+      · exact main m hm (.inl h0)
+      · exact main m hm (.inr (.inr (hall _ (by omega) (hk.kO m hlt))))
+    · exact main m hm (.inr (.inl (by omega)))
+
 end PV.UThread
